@@ -1,6 +1,6 @@
 (* Aggregation in the reference evaluator: null inputs are ignored, nothing aggregates to null,
    a distinct predicate has one row per key. *)
-From Coq Require Import List ZArith Bool Arith Permutation Lia.
+From Coq Require Import List ZArith Bool Arith Permutation Lia Sorted.
 Import ListNotations.
 From LV Require Import Core.Syntax Core.Eval.
 
@@ -234,4 +234,89 @@ Proof.
     assert (I1 : In (VInt m) b) by (eapply Permutation_in; eassumption).
     assert (I2 : In (VInt m') a) by (eapply Permutation_in; [apply Permutation_sym|]; eassumption).
     pose proof (Am m' I2) as A1. pose proof (Am' m I1) as A2. unfold ext_ok in *. destruct w; lia.
+Qed.
+
+(* Count, List and Set of integers: the evaluator sorts the non-null inputs, so the arrival order is immaterial *)
+Fixpoint ints (l : list val) : list Z :=
+  match l with VInt z :: l' => z :: ints l' | _ => [] end.
+
+Lemma ints_perm l l' : all_int l = true -> Permutation l l' -> Permutation (ints l) (ints l').
+Proof.
+  intros H P. induction P; cbn [ints all_int] in *.
+  - constructor.
+  - destruct x; try discriminate. constructor. apply IHP, H.
+  - destruct y; try discriminate. destruct x; try discriminate. apply perm_swap.
+  - eapply perm_trans; [apply IHP1, H|]. apply IHP2. rewrite <- (all_int_perm _ _ P1). exact H.
+Qed.
+
+Lemma insert_int z : forall s, StronglySorted Z.le s ->
+  exists s', insert_sorted (VInt z) (map VInt s) = Ok (map VInt s') /\ Permutation (z :: s) s' /\ StronglySorted Z.le s'.
+Proof.
+  induction s as [|x s IH]; intros Hs.
+  - exists [z]. split; [reflexivity|]. split; [apply Permutation_refl|]. repeat constructor.
+  - cbn [map insert_sorted val_ltb]. inversion Hs as [|? ? Hs' Hall]; subst.
+    destruct (Z.ltb_spec x z) as [Hlt|Hge].
+    + destruct (IH Hs') as [s' [E [P S]]]. rewrite E. cbn [bind]. exists (x :: s').
+      split; [reflexivity|]. split.
+      * eapply perm_trans; [apply perm_swap|]. apply perm_skip, P.
+      * constructor; [exact S|]. apply Forall_forall. intros y Hy.
+        apply Permutation_sym in P. pose proof (Permutation_in _ P Hy) as [->|Hin]; [lia|].
+        rewrite Forall_forall in Hall. apply Hall, Hin.
+    + exists (z :: x :: s). split; [reflexivity|]. split; [apply Permutation_refl|].
+      constructor; [exact Hs|]. constructor; [exact Hge|].
+      rewrite Forall_forall in *. intros y Hy. specialize (Hall y Hy). lia.
+Qed.
+
+Lemma sort_fold_int : forall l s, all_int l = true -> StronglySorted Z.le s ->
+  exists s', fold_left (fun acc v => bind acc (fun a => insert_sorted v a)) l (Ok (map VInt s)) = Ok (map VInt s') /\
+    Permutation (ints l ++ s) s' /\ StronglySorted Z.le s'.
+Proof.
+  induction l as [|v l IH]; intros s H Hs.
+  - exists s. split; [reflexivity|]. split; [apply Permutation_refl | exact Hs].
+  - cbn [all_int] in H. destruct v as [|z| | |]; try discriminate.
+    cbn [fold_left bind ints]. destruct (insert_int z s Hs) as [s1 [E [P S]]]. rewrite E.
+    destruct (IH s1 H S) as [s' [E' [P' S']]]. exists s'. split; [exact E'|]. split; [|exact S'].
+    eapply perm_trans; [|exact P']. simpl. eapply perm_trans; [apply Permutation_middle|].
+    apply Permutation_app_head. exact P.
+Qed.
+
+Lemma sorted_perm_eq : forall a b, StronglySorted Z.le a -> StronglySorted Z.le b -> Permutation a b -> a = b.
+Proof.
+  induction a as [|x a IH]; intros b Sa Sb P.
+  - apply Permutation_nil in P. subst. reflexivity.
+  - destruct b as [|y b]; [apply Permutation_sym, Permutation_nil in P; discriminate|].
+    inversion Sa as [|? ? Sa' Ha]; subst. inversion Sb as [|? ? Sb' Hb]; subst.
+    rewrite Forall_forall in Ha, Hb.
+    assert (x = y).
+    { pose proof (Permutation_in x P (or_introl eq_refl)) as [E|Hx]; [symmetry; exact E|].
+      pose proof (Permutation_in y (Permutation_sym P) (or_introl eq_refl)) as [E|Hy]; [exact E|].
+      specialize (Ha y Hy). specialize (Hb x Hx). lia. }
+    subst y. f_equal. apply IH; [exact Sa' | exact Sb' | eapply Permutation_cons_inv, P].
+Qed.
+
+Theorem sort_vals_arrival_order a b : all_int a = true -> Permutation a b -> sort_vals a = sort_vals b.
+Proof.
+  intros H P. assert (Hb : all_int b = true) by (rewrite <- (all_int_perm _ _ P); exact H).
+  unfold sort_vals.
+  destruct (sort_fold_int a [] H (SSorted_nil _)) as [sa [Ea [Pa Sa]]].
+  destruct (sort_fold_int b [] Hb (SSorted_nil _)) as [sb [Eb [Pb Sb]]].
+  cbn [map] in Ea, Eb. rewrite Ea, Eb. f_equal. f_equal.
+  apply sorted_perm_eq; [exact Sa | exact Sb|].
+  rewrite app_nil_r in Pa, Pb.
+  eapply perm_trans; [apply Permutation_sym, Pa|]. eapply perm_trans; [|exact Pb]. apply ints_perm; assumption.
+Qed.
+
+Theorem count_list_set_arrival_order op vals vals' : op = ACount \/ op = AList \/ op = ASet ->
+  all_int (filter (fun v => negb (is_null v)) vals) = true -> Permutation vals vals' ->
+  aggregate op vals = aggregate op vals'.
+Proof.
+  intros Hop H P. pose proof (filter_perm (fun v => negb (is_null v)) _ _ P) as Pf.
+  unfold aggregate.
+  set (a := filter (fun v => negb (is_null v)) vals) in *.
+  set (b := filter (fun v => negb (is_null v)) vals') in *.
+  pose proof (sort_vals_arrival_order a b H Pf) as Es.
+  destruct a as [|x a'] eqn:Eqa.
+  - apply Permutation_nil in Pf. rewrite Pf. destruct Hop as [-> | [-> | ->]]; reflexivity.
+  - destruct b as [|y b'] eqn:Eqb; [apply Permutation_sym, Permutation_nil in Pf; discriminate|].
+    destruct Hop as [-> | [-> | ->]]; rewrite Es; reflexivity.
 Qed.
